@@ -278,3 +278,41 @@ func H_C16_two_args() {
 	verif.Assert(verif.Eq(got, []any{genql.Map{"v": s1, "w": s2}}), "echo")
 	verif.Reach("end")
 }
+
+// H_C16_sequence: a call that is rejected leaves nothing behind: the next
+// valid call returns exactly its own sanitized text (and a rejected call
+// after a valid one is still rejected).
+func H_C16_sequence() {
+	bad := verif.Choose("rejected-call", 5)
+	order := verif.Choose("order", 2)
+	reject := func() error {
+		var err error
+		switch bad {
+		case 0:
+			_, err = SanitizeSQL("SELECT $1 AS a, $2 AS b FROM dual", "a")
+		case 1:
+			_, err = SanitizeSQL("SELECT 'lead' AS a, $0 FROM dual", "a")
+		case 2:
+			_, err = SanitizeSQL("SELECT $1 AS a FROM dual", "a", "unused")
+		case 3:
+			_, err = SanitizeSQL("SELECT $1 AS a, $2 FROM dual", "a", struct{}{})
+		case 4:
+			_, err = SanitizeSQL("SELECT $3 FROM dual", "a")
+		}
+		return err
+	}
+	s := verif.Str("s", 2, c16Alphabet)
+	want := "SELECT " + QuoteString(s) + " AS v FROM dual"
+	if order == 0 {
+		verif.Assert(reject() != nil, "rejected")
+		out, err := SanitizeSQL("SELECT $1 AS v FROM dual", s)
+		verif.Assert(err == nil && out == want, "valid-call-after-rejected-one")
+	} else {
+		out, err := SanitizeSQL("SELECT $1 AS v FROM dual", s)
+		verif.Assert(err == nil && out == want, "valid-call")
+		verif.Assert(reject() != nil, "rejected")
+		out, err = SanitizeSQL("SELECT $1 AS v FROM dual", s)
+		verif.Assert(err == nil && out == want, "valid-call-after-rejected-one")
+	}
+	verif.Reach("end")
+}
